@@ -2384,7 +2384,7 @@ macro_rules! real_success_harness { ($name:ident, $kind:expr, $other:expr, $resp
 // @gv bounds="REAL completion code and real boxed result callbacks: a written QoS1 PUBLISH (symbolic id p1) and a bystander SUBSCRIBE (p2) await acks; engine Connected; the publish is failed (offline-policy error), then failed again (late timeout / reset)"
 // @gv timeout=1200 mem=11 unwind=8 stubs="std::fmt::format -> stub_format"
 real_fail_harness!(c01_real_fail_q1, 1, 3);
-// @gv props=C01,C06 tier=quick required=no fns=ProtocolState::complete_operation_as_failure,complete_operation_with_error
+// @gv props=C01,C06 tier=thorough required=no fns=ProtocolState::complete_operation_as_failure,complete_operation_with_error
 // @gv bounds="as c01_real_fail_q1 for a SUBSCRIBE with a QoS2 PUBLISH bystander"
 // @gv timeout=1200 mem=11 unwind=8 stubs="std::fmt::format -> stub_format"
 real_fail_harness!(c01_real_fail_sub, 3, 2);
@@ -2401,7 +2401,7 @@ real_fail_harness!(c01_real_fail_unsub, 4, 1);
 // @gv bounds="REAL completion code and real boxed result callbacks: a written QoS1 PUBLISH (symbolic id p1) and a bystander SUBSCRIBE (p2); resolved with its PUBACK; then a late failure and a late success for the same operation"
 // @gv timeout=1200 mem=11 unwind=8 stubs="std::fmt::format -> stub_format"
 real_success_harness!(c01_real_ok_q1_puback, 1, 3, 1);
-// @gv props=C01,C06 tier=quick required=no fns=ProtocolState::complete_operation_as_success,complete_operation_with_result
+// @gv props=C01,C06 tier=thorough required=no fns=ProtocolState::complete_operation_as_success,complete_operation_with_result
 // @gv bounds="as c01_real_ok_q1_puback for a SUBSCRIBE resolved with its SUBACK (one reason code), QoS2 PUBLISH bystander"
 // @gv timeout=1200 mem=11 unwind=8 stubs="std::fmt::format -> stub_format"
 real_success_harness!(c01_real_ok_sub_suback, 3, 2, 4);
